@@ -955,3 +955,48 @@ func highPart(l *Lin) (n int, t *Lin, ok bool) {
 
 // LinName is the name a form has inside a proposition.
 func LinName(l *Lin) string { return linName(l) }
+
+// EvalConst evaluates the form l with the atoms named in subst replaced by constants, deciding the gated merges on
+// the way from their own comparisons (conds maps condition keys to the comparisons noted by the interpreter). It
+// reports false when something other than the substituted atoms is left.
+func (o Ops) EvalConst(l *Lin, conds map[string]*Bool, subst map[string]uint64) (uint64, bool) {
+	bc := &BoolCtx{Conds: conds, O: &o}
+	assign := map[string]bool{}
+	for round := 0; round < 16; round++ {
+		r := o.RebuildSubst(l, assign, subst)
+		if c, ok := r.IsConst(); ok {
+			return c, true
+		}
+		open := map[string]bool{}
+		IteConds(r.Lin, open)
+		progress := false
+		for k := range open {
+			if _, done := assign[k]; done {
+				continue
+			}
+			b := conds[k]
+			if b == nil || b.Cmp == nil {
+				continue
+			}
+			x, okx := b.Cmp.X.(*Int)
+			y, oky := b.Cmp.Y.(*Int)
+			if !okx || !oky {
+				continue
+			}
+			xc, ok1 := o.EvalConst(x.Lin, conds, subst)
+			yc, ok2 := o.EvalConst(y.Lin, conds, subst)
+			if !ok1 || !ok2 {
+				continue
+			}
+			e := bc.CmpExpr(&CmpInfo{Op: b.Cmp.Op, X: NewConst(x.W, xc, x.Signed), Y: NewConst(y.W, yc, y.Signed), Sgn: b.Cmp.Sgn})
+			if e.Op == "const" {
+				assign[k] = e.K
+				progress = true
+			}
+		}
+		if !progress {
+			return 0, false
+		}
+	}
+	return 0, false
+}
